@@ -25,6 +25,14 @@ package contractcourt
 // commit set present, every persisted resolver: type, incubating flag,
 // resolved flag; reports; channel status) and appended to the trace.
 //
+// Received (incoming) htlcs: the witness beacon is a durable store with
+// volatile subscribers; the scenario's environment script (chain height when
+// WaitingFullResolution is durable, then blocks / "the preimage of htlc i
+// reaches the beacon") advances only when the node is quiescent; the mock
+// sweeper lets a claim of a received htlc confirm only if the sweep input
+// carries the htlc's preimage; PutFinalHtlcOutcome is a transaction of the
+// wrapped database like in channeldb.
+//
 // The chain is a small deterministic environment that survives restarts:
 // outputs become spent when "our" sweep of them has been offered to the
 // sweeper (or from the start for a remote preimage claim), sweeps confirm,
@@ -871,9 +879,15 @@ func (w *vrWorld) build() vrEvent {
 			w.onSweep[op] = d
 			w.pending = append(w.pending, op) // visible once the gate opens
 			regKey(op, r.Key)
-		case "timeout_local2":
-			// our commitment, anchor channel: second-level timeout tx
-			addHtlc(confKey, mk(r.Idx, false, int32(r.Key), vrCloseHeight+5, vrHash(r.Idx)))
+		case "timeout_local2", "contest_timeout_local2":
+			// our commitment, anchor channel: second-level timeout tx.
+			// contest_: the htlc is far from its expiry at the close
+			// (outgoing contest resolver first)
+			exp := uint32(vrCloseHeight + 5)
+			if r.Kind == "contest_timeout_local2" {
+				exp = 1500
+			}
+			addHtlc(confKey, mk(r.Idx, false, int32(r.Key), exp, vrHash(r.Idx)))
 			ttx := &wire.MsgTx{
 				Version: 2,
 				TxIn: []*wire.TxIn{{PreviousOutPoint: op,
@@ -881,7 +895,7 @@ func (w *vrWorld) build() vrEvent {
 				TxOut: []*wire.TxOut{{Value: 9000, PkScript: []byte{9}}},
 			}
 			hr.OutgoingHTLCs = append(hr.OutgoingHTLCs, lnwallet.OutgoingHtlcResolution{
-				Expiry: vrCloseHeight + 5, SignedTimeoutTx: ttx, CsvDelay: 4,
+				Expiry: exp, SignedTimeoutTx: ttx, CsvDelay: 4,
 				ClaimOutpoint: wire.OutPoint{Hash: ttx.TxHash(), Index: 0},
 				SweepSignDesc: vrSignDesc(),
 				SignDetails: &input.SignDetails{
@@ -1560,6 +1574,18 @@ func vrResInExpire(key, idx int64, local bool) vrResolver {
 		PTab:   map[string]int64{"3,0,0,0": 0, "3,0,1,0": 1}}
 }
 
+// offered htlc far from its expiry on OUR commitment: outgoing contest
+// resolver, swapped for the two-stage timeout resolver at the expiry height
+func vrResContestTimeoutLocal2(key, idx int64) vrResolver {
+	return vrResolver{Key: key, Kind: "contest_timeout_local2", Idx: idx,
+		Stages: []vrStage{
+			{Outs: [][]int64{}, Rep: [][]int64{}},
+			{Outs: [][]int64{vrFail(idx)}, Rep: [][]int64{{key, 4}}},
+			{Outs: [][]int64{}, Rep: [][]int64{{0, 3}}},
+		},
+		PTab: map[string]int64{"2,0,0": 0, "0,0,0": 1, "0,1,0": 2, "0,1,1": 3}}
+}
+
 func vrScenarios() []vrSpec {
 	e := []int64{}
 	return []vrSpec{
@@ -1650,12 +1676,28 @@ func vrScenarios() []vrSpec {
 			FinalsClosed: []int64{3}, H0: 600, Env: []vrEnvStep{{Pre: 7}, {H: 2000}},
 			Resolvers: []vrResolver{vrResCommit(), vrResTimeoutLocal2(22, 1),
 				vrResInClaimLocal2(27, 7), vrResInExpire(28, 8, true)}},
-		// finding C13-F3: NO htlc near its expiry at the closing height.  A
-		// restart in StateContractClosed re-runs the state with chainTrigger,
-		// for which checkCommitChainActions returns no actions at all.
+		// ---- NO htlc within the broadcast delta at the closing height
+		// (regression of finding C13-F3, repaired by 276b5b1: a restart in
+		// StateContractClosed used chainTrigger, for which
+		// checkCommitChainActions returns no actions at all: no htlc
+		// resolver, no dust fail-back / final) ----
 		{Name: "f3_remote_in_far", Kind: "remote", FailsDefault: e, FailsClosed: e,
 			FinalsClosed: e, H0: 600, Known: []int64{7}, FarExp: true,
 			Resolvers: []vrResolver{vrResCommit(), vrResInClaimRemote(27, 7)}},
+		// remote close: offered htlc far from expiry (contest -> timeout),
+		// received htlc that expires, offered dust, received dust
+		{Name: "remote_far", Kind: "remote", FailsDefault: []int64{2}, FailsClosed: e,
+			FinalsClosed: []int64{3}, H0: 600, Env: []vrEnvStep{{H: 2000}}, FarExp: true,
+			Resolvers: []vrResolver{vrResCommit(), vrResContestTimeout(24, 4),
+				vrResInExpire(28, 8, false)}},
+		// our force close: offered htlc far from expiry (contest -> two-stage
+		// timeout), received htlc with the preimage known (two-stage claim),
+		// received dust
+		{Name: "local_far2", Kind: "local", UserFC: true, FailsDefault: e, FailsClosed: e,
+			FinalsClosed: []int64{3}, H0: 600, Known: []int64{7},
+			Env: []vrEnvStep{{H: 2000}}, FarExp: true,
+			Resolvers: []vrResolver{vrResCommit(), vrResContestTimeoutLocal2(22, 1),
+				vrResInClaimLocal2(27, 7)}},
 	}
 }
 
